@@ -66,6 +66,9 @@ def base_config(start="2018-12-01T12:00:00", step: int = 60, n_steps: int = 3, o
     if decision == "RandomDecision":
         eng["decision"]["seed"] = seed or 0
     eng["targets"] = eng["targets"][:n_targets] + list(extra_targets or [])
+    if decision == "AllVisibleDecision":
+        # the all-visible policy is only accepted for networks of advanced radars
+        eng["sensors"] = [x for x in eng["sensors"] if x["sensor"]["type"] == "adv_radar"]
     eng["sensors"] = eng["sensors"][:n_sensors]
     d["engines"] = [eng]
     d.setdefault("propagation", {})
